@@ -71,11 +71,16 @@ func (rn *runner) processes(ctx *fw.Ctx, md *model, doc *foreignDoc, v *inv) {
 		args = append(args, a)
 	}
 	rn.nproc++
+	// the binary under test must be the same file for all processes of one command (the
+	// protobuf encoders salt their whitespace with a hash of the executable, and a rebuild
+	// in the middle would compare two different programs)
+	bin := filepath.Join(ctx.BinDir, "sysl")
+	before, _ := os.Stat(bin)
 	outs := make([]outcome, procs)
 	for k := 0; k < procs; k++ {
 		dir := filepath.Join(ctx.Dir, "cli", fmt.Sprintf("%d-%d", rn.nproc, k))
 		_ = os.MkdirAll(filepath.Join(dir, "out"), 0o755)
-		cmd := exec.Command(filepath.Join(ctx.BinDir, "sysl"), args...)
+		cmd := exec.Command(bin, args...)
 		cmd.Dir = dir
 		var so, se bytes.Buffer
 		cmd.Stdout, cmd.Stderr = &so, &se
@@ -98,6 +103,10 @@ func (rn *runner) processes(ctx *fw.Ctx, md *model, doc *foreignDoc, v *inv) {
 			outs[k].stderr = clipStr(se.String(), 4000)
 		}
 		_ = os.RemoveAll(dir)
+	}
+	if after, _ := os.Stat(bin); before == nil || after == nil || before.Size() != after.Size() || !before.ModTime().Equal(after.ModTime()) {
+		res.Count("process_comparisons_discarded_binary_changed", 1)
+		return
 	}
 	res.Add("commands", v.cli[0]+":"+v.opt)
 	a := outs[0]
